@@ -134,4 +134,12 @@ example : (match ssLoop ssCfg {} (splitParams [0x34, 0x3A]) {} with | .ok s => d
 example : (match ssLoop ssCfg {} (splitParams [0x3B, 0x3A, 0x3B]) { attr := 2 } with | .ok s => decide (s = { attr := 2 }) | _ => false) = true := by
   decide
 
+-- the hypothesis of `sgr_total` ("every parameter non-empty") is what the parser guarantees; it is sufficient, not necessary:
+-- an empty parameter panics only when the loop reaches it (`params[i][0]`), not after a `return` or inside a passed-over form
+example : (match parseSGR {} [[]] with | .error _ => true | _ => false) = true ∧
+    (match parseSGR {} [[1], []] with | .error _ => true | _ => false) = true ∧
+    (match parseSGR {} [[38], [5], []] with | .error _ => true | _ => false) = true ∧
+    (match parseSGR {} [[38, 3, 7], []] with | .ok _ => true | _ => false) = true ∧
+    (match ssSeq {} {} [[1], []] with | .error _ => true | _ => false) = true := by decide
+
 end VaxisModel.Props.C18Total
